@@ -643,6 +643,9 @@ class Run(object):
             'assumed_contracts_used': sorted(_C.ASSUMED_USED),
             'contracts_applied_at_call_sites': len(_C.APPLIED),
             'samples': self.samples[:8],
+            'slowest_obligations': [{'obligation': v.ob.name, 'solver_s': round(v.time_s, 2), 'backend': v.backend}
+                                    for v in sorted([v for u in self.units for v in (u.verdicts or [])],
+                                                    key=lambda v: -v.time_s)[:10]],
             'vacuity': dict(self.vacuity, path_witnesses_replayed=self.witnesses, path_witnesses_agree=self.witness_ok),
             'units': [{'unit': u.name, 'function': u.qual, 'paths': u.result.paths,
                        'obligations': len(u.verdicts), 'discharged': sum(1 for v in u.verdicts if v.result == 'unsat'),
